@@ -68,6 +68,10 @@ func (streamBytes) AsString() (string, error) {
 	return mixins.Bytes{TypeName: "bytes"}.AsString()
 }
 func (n streamBytes) AsBytes() ([]byte, error) {
+	// The node's content is the whole stream, however far it has been read before.
+	if _, err := n.Seek(0, io.SeekStart); err != nil {
+		return nil, err
+	}
 	return io.ReadAll(n)
 }
 func (streamBytes) AsLink() (datamodel.Link, error) {
